@@ -27,6 +27,9 @@ def _case(draw):
         'clip': draw(st.sampled_from(['off', 'off', 'active'])),
         'lr': draw(st.sampled_from([0.1, 1.0, 0.01])),
         'steps': draw(st.integers(1, 4)),
+        # factors and second-order data refreshed every `interval` steps (both intervals equal, so that on the steps in between the
+        # stored factors are still the ones the cached decompositions / inverses were computed from)
+        'interval': draw(st.sampled_from([1, 1, 1, 2, 2, 3])),
         'N': draw(st.integers(1, 6)),
         'style': draw(gens.style_strategy()),
         'data_seed': draw(st.integers(0, 10 ** 6)),
@@ -50,7 +53,7 @@ class C01(Prop):
     rule = ('Hypothesis draws a runnable model of 1-3 supported layers (linear incl. N-d inputs, conv2d with rectangular kernels/strides/'
             'paddings, bias on/off, subclasses), batch 1-6, data style, damping log-uniform in [1e-3,10], decay in (0,1], method x '
             'pre-divided eigenvalues x colocate, parameter dtype float32/float64, factor dtype None/float32/float64/bfloat16, inverse dtype '
-            'float32/float64, 1-4 steps with SGD weight updates in between, clipping off (1e30) or active; one case in five is a low-precision long run (eigen method, bfloat16 factors, decay <= 0.5, 3-8 steps, batch 1-3, inverse dtype float64/float32) in which the stored factors become measurably indefinite. Oracle: D recorded on a twin model '
+            'float32/float64, 1-4 steps with SGD weight updates in between, factors and second-order data refreshed every 1-3 steps (cached decompositions are reused in between), clipping off (1e30) or active; one case in five is a low-precision long run (eigen method, bfloat16 factors, decay <= 0.5, 3-8 steps, batch 1-3, inverse dtype float64/float32) in which the stored factors become measurably indefinite. Oracle: D recorded on a twin model '
             'without K-FAC, A and G read from state_dict() after the step, V_ref from a float64 dense solve of the system named in the '
             'statement (Kronecker form for eigen), nu_ref from the clip formula; ||grad - nu_ref V_ref||_F <= 16 sqrt(n) eps kappa ||V_ref||_F, and '
             'the residual of the defining system is within the same bound. Non-trivial: tolerance <= 5e-2 and V_ref differs by more than '
@@ -61,8 +64,8 @@ class C01(Prop):
                    'kappa from the float64 system (product form for eigen, sum of the two factor condition numbers for inverse)']
     examples = {'quick': 500, 'thorough': 2000}
     shards = {'quick': 4, 'thorough': 16}
-    required_labels = {'quick': ['nontrivial=True', 'method=eigen', 'method=inverse', 'has_conv=True', 'clip=active', 'lowprec_long_run=True'],
-                       'thorough': ['nontrivial=True', 'method=eigen', 'method=inverse', 'has_conv=True', 'clip=active', 'lowprec_long_run=True']}
+    required_labels = {'quick': ['nontrivial=True', 'method=eigen', 'method=inverse', 'has_conv=True', 'clip=active', 'lowprec_long_run=True', 'reused_second_order=True'],
+                       'thorough': ['nontrivial=True', 'method=eigen', 'method=inverse', 'has_conv=True', 'clip=active', 'lowprec_long_run=True', 'reused_second_order=True']}
 
     def strategy(self, tier):
         return st.one_of(_case(), _case(), _case(), _case(), _lowprec_case())
@@ -90,6 +93,7 @@ class C01(Prop):
         kl = 1e30 if c['clip'] == 'off' else None
         # an active clip value is chosen after the first unclipped solve (needs the magnitude of <V,D>)
         kwargs = dict(damping=c['damping'], factor_decay=c['decay'], lr=c['lr'], compute_method=c['method'],
+                      factor_update_steps=c.get('interval', 1), inv_update_steps=c.get('interval', 1),
                       compute_eigenvalue_outer_product=c['prediv'], colocate_factors=c['colocate'],
                       factor_dtype=kmodel.dt(c['factor_dtype']), inv_dtype=kmodel.dt(c['inv_dtype']))
         klbox = [1e30]
@@ -102,7 +106,8 @@ class C01(Prop):
             eps = max(eps, refkfac.EPS[kmodel.dt(c['factor_dtype']) or pd])
         labels = {'method': c['method'], 'prediv': c['prediv'], 'clip': c['clip'], 'param_dtype': c['param_dtype'],
                   'factor_dtype': str(c['factor_dtype']), 'inv_dtype': c['inv_dtype'], 'steps': c['steps'],
-                  'has_conv': any(L['t'] == 'conv' for L in c['spec']['layers']), 'style': c['style'], 'lowprec_long_run': bool(c.get('lowprec'))}
+                  'has_conv': any(L['t'] == 'conv' for L in c['spec']['layers']), 'style': c['style'], 'lowprec_long_run': bool(c.get('lowprec')),
+                  'reused_second_order': c.get('interval', 1) > 1 and c['steps'] > 1}
         nontrivial = False
         worst = 0.0
         worst_tol = 0.0
